@@ -117,7 +117,8 @@ func allMethods() []methodSpec {
 }
 
 // linesearcher ids: 0 = the method's default (nil), 1 Backtracking, 2 Bisection, 3 MoreThuente.
-var lsNames = []string{"default", "Backtracking", "Bisection", "MoreThuente"}
+// 4 and 5 are the stringent variants the CG documentation asks for (curvature 0.1).
+var lsNames = []string{"default", "Backtracking", "Bisection", "MoreThuente", "Bisection(0.1)", "MoreThuente(0.1)"}
 
 func mkLS(id int) optimize.Linesearcher {
 	switch id {
@@ -127,6 +128,10 @@ func mkLS(id int) optimize.Linesearcher {
 		return &optimize.Bisection{}
 	case 3:
 		return &optimize.MoreThuente{}
+	case 4:
+		return &optimize.Bisection{CurvatureFactor: 0.1}
+	case 5:
+		return &optimize.MoreThuente{CurvatureFactor: 0.1}
 	}
 	return nil
 }
@@ -754,19 +759,16 @@ func lsCondition(ls int, a, b *recEntry) string {
 		if !(b.f <= a.f+1e-4*g0+slackF) {
 			return fmt.Sprintf("Backtracking accepted a step violating the Armijo condition: f=%v > f0 %v + 1e-4*%v", b.f, a.f, g0)
 		}
-	case 2: // Bisection: strong Wolfe with decrease 0, curvature 0.9
+	case 2, 3, 4, 5: // Bisection / MoreThuente: strong Wolfe with decrease 0, curvature 0.9 (0.1 for ids 4, 5)
+		cur := 0.9
+		if ls >= 4 {
+			cur = 0.1
+		}
 		if !(b.f <= a.f+slackF) {
-			return fmt.Sprintf("Bisection accepted a step with f=%v > f0=%v", b.f, a.f)
+			return fmt.Sprintf("%s accepted a step with f=%v > f0=%v", lsNames[ls], b.f, a.f)
 		}
-		if !(math.Abs(g1) <= 0.9*math.Abs(g0)*(1+1e-9)+slackG) {
-			return fmt.Sprintf("Bisection accepted a step violating the curvature condition: |%v| >= 0.9*|%v|", g1, g0)
-		}
-	case 3: // MoreThuente: decrease 0, curvature 0.9
-		if !(b.f <= a.f+slackF) {
-			return fmt.Sprintf("MoreThuente accepted a step with f=%v > f0=%v", b.f, a.f)
-		}
-		if !(math.Abs(g1) <= 0.9*math.Abs(g0)*(1+1e-9)+slackG) {
-			return fmt.Sprintf("MoreThuente accepted a step violating the curvature condition: |%v| > 0.9*|%v|", g1, g0)
+		if !(math.Abs(g1) <= cur*math.Abs(g0)*(1+1e-9)+slackG) {
+			return fmt.Sprintf("%s accepted a step violating the curvature condition: |%v| > %g*|%v|", lsNames[ls], g1, cur, g0)
 		}
 	}
 	return ""
